@@ -233,6 +233,17 @@ func (un *Unit) havocAllButGhost(st *State) {
 // havocAll forgets every heap except locals and the allocation counter.
 func (un *Unit) havocAll(st *State) {
 	next := un.H(st, "$next", SInt)
+	// immutable fields: existing objects keep their values
+	keep := map[string]Term{}
+	for k := range un.eng.immutable {
+		srt, ok := un.heapSort[k]
+		if !ok {
+			srt, ok = un.eng.heapSortHint[k]
+		}
+		if ok {
+			keep[k] = un.H(st, k, srt)
+		}
+	}
 	un.nepoch++
 	for k := range st.H {
 		if !isLocalKey(k) {
@@ -241,6 +252,13 @@ func (un *Unit) havocAll(st *State) {
 	}
 	st.H["$next"] = next
 	st.Ep = un.nepoch
+	for _, k := range sortedKeys(keep) {
+		st.H[k] = keep[k]
+		if _, ok := st.H["$limit"]; !ok {
+			st.H["$limit"] = next
+		}
+		un.havocFresh(st, k)
+	}
 }
 
 func (un *Unit) setH(st *State, name string, t Term) {
